@@ -10,6 +10,7 @@ var truncPrograms = []string{
   elif b: pass
   else:
     for i, (j, k) in []: continue
+  g = lambda p, *a, **k: (lambda *, z=1, **kk: z)(**k)
   return lambda q=0x1F, r=0o17, s=0b11, t=1e3, u=.5, v=1.: q if r else s
 load("m", "a", b="sym")
 w = f(1, d=2, *[3], **{"e": 4}) if 0 else not -~+1 * 2
